@@ -259,3 +259,56 @@ func runC17(p *P, r *R) {
 	}
 	_ = types.Typ
 }
+
+// watcherEpochTest (R17.2 / R16.6): the watcher that rebuilds a lost session decides "this pool was
+// already replaced by a hot restart" by comparing the epoch of the session it watched with the epoch
+// of the session that is in the pool table now (two loads of Session.epochID), and reconnects only on
+// the unchanged edge. Comparing with anything else (e.g. the manager's epoch) misclassifies pools that
+// a partly failed hot restart did not swap: they are never rebuilt and stay on a dead session.
+func watcherEpochTest(p *P, r *R, rule string) {
+	n := 0
+	for _, w := range p.fnList {
+		isW := false
+		allInstrs(w, func(in ssa.Instruction) {
+			if s, ok := in.(*ssa.Select); ok && s.Blocking {
+				for _, st := range s.States {
+					if c, ok := st.Chan.(*ssa.Call); ok && p.calleeName(&c.Call) == "(*Session).CloseChan" {
+						isW = true
+					}
+				}
+			}
+		})
+		if !isW {
+			continue
+		}
+		for _, rc := range findInstrs(w, p.mCall("newClientSession")) {
+			n++
+			ok := false
+			for _, fct := range factsAt(rc.Block()) {
+				if v, okb := fct.Cond.(*ssa.BinOp); okb && isLoadOf(v.X, "Session.epochID") && isLoadOf(v.Y, "Session.epochID") {
+					if relOn(fct.Cond, fct.Truth, func(x ssa.Value) bool { return x == v.X }, func(x ssa.Value) bool { return x == v.Y }) == "==" {
+						// one side is the session of the current table entry (sm.pools[id]), the other the watched pool's
+						fromTable := func(x ssa.Value) bool {
+							// x = load of (<pool>.Session()).epochID: is <pool> an element of the manager's pool table?
+							fa, okf := loadOfField(x)
+							if !okf {
+								return false
+							}
+							c, okc := fa.X.(*ssa.Call)
+							if !okc || p.calleeName(&c.Call) != "(*streamPool).Session" {
+								return false
+							}
+							return derivedFrom(c.Call.Args[0], func(y ssa.Value) bool { return isLoadOf(y, "SessionManager.pools") }, 6)
+						}
+						if fromTable(v.X) != fromTable(v.Y) {
+							ok = true
+						}
+					}
+				}
+			}
+			r.ob(rule, p.fname(w)+": 'already replaced by hot restart' is decided by comparing the watched session's epoch with the epoch of the session now in the pool table", p.ipos(rc), ok, true,
+				"a pool that a partly failed or timed-out hot restart did not swap must still be rebuilt when its old session dies")
+		}
+	}
+	r.count(rule, "reconnect sites in watchers", n, 1)
+}
